@@ -114,6 +114,7 @@ pub fn check(c: &Case, obs: &mut Obs) -> R {
         (Built::Insert(a), Built::Insert(b)) => a == b,
         (Built::Update(a), Built::Update(b)) => a == b,
         (Built::Delete(a), Built::Delete(b)) => a == b,
+        (Built::With(a), Built::With(b)) => a == b,
         _ => false,
     };
     let dbg_now: String = on_built!(&built, s => format!("{s:?}"));
@@ -149,6 +150,11 @@ impl IntoBuilt for InsertStatement {
 impl IntoBuilt for UpdateStatement {
     fn into_built(self) -> Built {
         Built::Update(self)
+    }
+}
+impl IntoBuilt for WithQuery {
+    fn into_built(self) -> Built {
+        Built::With(self)
     }
 }
 impl IntoBuilt for DeleteStatement {
